@@ -324,8 +324,11 @@ def check_property(pid, tier, seed):
     for u in units:
         sel = spec.get("select", {}).get(u["unit"])
         for f in u["failures"]:
-            if sel is None or sel(f):
+            if sel is None or sel(f["obligation"]):
                 fails.append(f)
+        if sel is not None:
+            # only the obligations that carry this property are reported (and counted) in its evidence
+            u["obligations"] = [o for o in u["obligations"] if sel(o["name"])]
     for k in kani:
         fails += k.get("failures", [])
     kf = findings.load()
